@@ -22,7 +22,7 @@ Proof. destruct r as [x|e]; cbn; [intros H; f_equal; apply list_eqb_eq; exact H 
 
 (* the whole product, computed by the kernel's virtual machine *)
 Lemma mpeg_all_checked : forallb mpeg_check mpeg_domain = true.
-Proof. vm_compute. reflexivity. Qed.
+Proof. Time vm_compute. Time reflexivity. Time Qed.
 
 Lemma mpeg_domain_In vb lb prot bri sri pad priv mode :
   In vb [0; 2; 3] -> In lb [1; 2; 3] -> 0 <= prot <= 1 -> 1 <= bri <= 14 -> 0 <= sri <= 2 ->
@@ -56,7 +56,7 @@ Theorem mpeg_tables_match_spec : mpeg_bitrate_table_diff = [] /\ mpeg_rate_table
 Proof. split; vm_compute; reflexivity. Qed.
 
 Lemma mpeg_invalid_checked : forallb mpeg_rejects mpeg_invalid_domain = true.
-Proof. vm_compute. reflexivity. Qed.
+Proof. Time vm_compute. Time reflexivity. Time Qed.
 
 Theorem mpeg_invalid_rejected vb lb bri sri mode :
   0 <= vb <= 3 -> 0 <= lb <= 3 -> 0 <= bri <= 15 -> 0 <= sri <= 3 -> 0 <= mode <= 3 ->
